@@ -1,0 +1,14 @@
+//go:build !verif
+// +build !verif
+
+package db
+
+import "github.com/syndtr/goleveldb/leveldb"
+
+// Simulated-disk seams; active only under the verif build tag.
+
+func simOpen(file string) (*leveldb.DB, error, bool) { return nil, nil, false }
+
+func simPreWrite(db *leveldb.DB, kind string) error { return nil }
+
+func simPostWrite(db *leveldb.DB, kind string) {}
